@@ -185,17 +185,23 @@ Proof.
   - unfold apply_set. rewrite Hr. cbn. auto.
 Qed.
 
-(* a task that cannot be sent fails its own (cached, unresolved) Apply job *)
+(* a task that cannot be sent fails its own (cached, unresolved) Apply job, which leaves the
+   cache at once (nobody will ever acknowledge it) and gives its slot back *)
 Theorem put_failure_resolves s j x i k :
   0 <= j -> cached s j = Some x -> kind x = KApply -> ready x = false ->
   exists y, get_job (fst (fst (feed_tasks 1 i j k (Some k) false s))) j = Some y
-            /\ ready y = true /\ value y = Some PPutFailed.
+            /\ ready y = true /\ value y = Some PPutFailed /\ incache y = false
+            /\ sem (fst (fst (feed_tasks 1 i j k (Some k) false s))) = LaxSem.release (sem s).
 Proof.
-  intros Hj Hc Hk Hr. cbn [feed_tasks]. unfold okey_eqb, opt_eqb. rewrite Z.eqb_refl. rewrite Hc. cbn [fst].
+  intros Hj Hc Hk Hr. cbn [feed_tasks]. unfold okey_eqb, opt_eqb. rewrite Z.eqb_refl. rewrite Hc, Hk, Hr. cbn [fst].
   destruct (cached_get _ _ _ Hc) as [Hg _].
-  exists (apply_set x PPutFailed). split.
-  - unfold get_job, set_job. cbn [jobs]. replace (j <? 0) with false by lia.
+  exists (j_uncache (apply_set x PPutFailed)). split; [|split; [|split; [|split]]].
+  - unfold get_job, set_job. cbn [jobs with_sem]. replace (j <? 0) with false by lia.
     unfold get_job in Hg. replace (j <? 0) with false in Hg by lia.
+    erewrite nth_upd_nth_same; [reflexivity|].
     rewrite (nth_upd_nth_same _ _ _ _ Hg). unfold job_set. rewrite Hk. reflexivity.
-  - unfold apply_set. rewrite Hr. cbn. auto.
+  - unfold j_uncache, apply_set. rewrite Hr. reflexivity.
+  - unfold j_uncache, apply_set. rewrite Hr. reflexivity.
+  - reflexivity.
+  - reflexivity.
 Qed.
